@@ -33,8 +33,8 @@ def serialsOK (objs : List Cmd) : Bool :=
   (List.range objs.length).all (fun i => match objs[i]? with | some o => o.serial == i | none => false)
 
 def liveOK (s : State) (o : Cmd) : Bool :=
-  !o.finalized && !o.cancelled && !o.complete && o.initialized && o.iters != 0 &&
-  s.executing.any (fun r => r.id == o.owner && r.name == .uod o.name && !s.done.contains r.id)
+  !o.finalized && o.initialized &&
+  s.executing.any (fun r => r.name == .uod o.name && !r.bad && !s.done.contains r.id)
 
 def objOK (s : State) (o : Cmd) : Bool :=
   (if o.inMap then liveOK s o else o.finalized) &&
